@@ -34,3 +34,54 @@ contract(RU + "load_step_modules", props=["C11"], params={"step_paths": "seq:str
                 Loop(invariant={"default-matcher-in-force-between-modules": "G_matcher_is_default"})],
          ensures={"default-matcher-in-force-afterwards": "G_matcher_is_default"},
          doc="the precondition of the abstract exec_file is the property: each module starts under the default matcher")
+
+# -- registration: duplicates ignored, ambiguous patterns rejected -------------------------------------------------
+S = "behave.step_registry:"
+oracle("good_def", ["val"], "bool")               # step_matcher.compile() succeeds
+oracle("lower", ["val"], "val:str")
+contract("abs:make_step_matcher", trusted=True, pos_params=["func", "step_text", "step_type"], fresh_result="Matcher",
+         ensures={"holds-what-was-registered": "result.pattern == step_text and result.step_type == step_type and result.func == func"},
+         doc="make_step_matcher(func, pattern, step_type): a matcher object of the current matcher class (A: factory)")
+contract("abs:StepRegistry.is_good_step_definition", trusted=True, params={"self": "ref:StepRegistry"},
+         pos_params=["self", "step_matcher"], pure=True, result="bool",
+         ensures={"value": "result == good_def(step_matcher)"}, doc="compile() of the pattern succeeds (bad definitions are reported and ignored)")
+contract("abs:StepRegistry.same_step_definition", trusted=True, pos_params=["step", "other_pattern", "other_location"],
+         pure=True, result="bool", ensures={"value": "result == same_def(step, other_pattern, other_location)"},
+         doc="same pattern at the same source location (a step module imported twice)")
+contract("abs:Matcher.describe", trusted=True, params={"self": "ref:Matcher"}, pos_params=["self", "schema"],
+         defaults={"schema": None}, pure=True, result="str")
+contract("abs:Matcher.location", trusted=True, params={"self": "ref:Matcher"}, pure=True, result="any",
+         ensures={"value": "result == loc_of(self)"})
+oracle("loc_of", ["ref"], "val")
+contract("lib:str.lower", trusted=True, pos_params=["self"], pure=True, result="str", ensures={"value": "result == lower(self)"})
+DEFS = "as_list(dict_value(self.steps, lower(keyword)), 'ref:Matcher')"
+from pyvc.contracts import external_exception
+contract(S + "StepRegistry.add_step_definition", props=["C11"],
+         params={"self": "ref:StepRegistry", "keyword": "str", "step_text": "str", "func": "any"},
+         self_classes=["StepRegistry"],
+         requires={"known-step-type": "has_key(self.steps, lower(keyword))"},
+         callsites={"make_step_matcher": "abs:make_step_matcher", "_text": "lib:textutil.text",
+                    "keyword.lower": "lib:str.lower"},
+         exprs={"existing.describe(existing.SCHEMA_AT_LOCATION)": ("fresh", "str")},
+         modifies=["list(dict_value(self.steps, lower(keyword)))"],
+         raises=[Raises("AmbiguousStep", label="an-existing-definition-of-that-type-matches-the-new-pattern",
+                        when=None,
+                        ensures={"registry-unchanged": "len(%s) == old(len(%s))" % (DEFS, DEFS),
+                                 "only-when-an-existing-definition-matches-the-new-pattern":
+                                 "exists(lambda j: 0 <= j < old(len(%s)) and matches_text(old(%s[j]), step_text))" % (DEFS, DEFS)})],
+         loops=[Loop(invariant={
+             "no-earlier-definition-is-the-same-or-matches":
+                 "forall(lambda k: implies(0 <= k < _i, not same_def(_at(k), step_text, loc_of(new_step_matcher)) "
+                 "and not matches_text(_at(k), step_text)))",
+             "same-list": "_seq is dict_value(self.steps, lower(keyword)) and len(%s) == old(len(%s))" % (DEFS, DEFS)})],
+         ensures={
+             "earlier-definitions-kept-in-order":
+                 "len(%s) >= old(len(%s)) and forall(lambda k: implies(0 <= k < old(len(%s)), %s[k] is old(%s[k])))"
+                 % (DEFS, DEFS, DEFS, DEFS, DEFS),
+             "at-most-one-definition-added": "len(%s) <= old(len(%s)) + 1" % (DEFS, DEFS),
+             "a-new-definition-is-appended-only-if-no-existing-one-is-the-same-or-matches-its-pattern":
+                 "implies(len(%s) == old(len(%s)) + 1, exact_type(%s[len(%s) - 1], 'Matcher') and is_fresh(%s[len(%s) - 1]) and "
+                 "%s[len(%s) - 1].pattern == step_text and %s[len(%s) - 1].step_type == lower(keyword) and "
+                 "forall(lambda k: implies(0 <= k < old(len(%s)), not matches_text(old(%s[k]), step_text))))"
+                 % ((DEFS,) * 12),
+         })
